@@ -22,4 +22,6 @@ def run(prog, tier):
     # word 3 (analog measurements per frame) = channels x sub-frames is maintained by the header's own setters
     import p_c05
     p_c05.derived_rule(prog, res, 'header-sync/derived')
+    # header counts agree with the POINT/ANALOG parameters: the updater's decision table (finite models)
+    p_c05.sync_table_rule(prog, res)
     return res
